@@ -87,6 +87,7 @@ fn scenario(sc: &Value) -> Value {
         let start = start.clone();
         let send_errors = send_errors.clone();
         let burst_after_us = sc["burst_after_us"].as_i64().unwrap_or(0);
+        let start_delay: Vec<i64> = sc["start_delay_us"].as_array().map(|a| a.iter().filter_map(|x| x.as_i64()).collect()).unwrap_or_default();
         sender_threads.push(std::thread::spawn(move || {
             verif::set_actor(300 + r as i64);
             let mut rng = StdRng::seed_from_u64(seed * 1000 + r as u64);
@@ -101,7 +102,9 @@ fn scenario(sc: &Value) -> Value {
                 x += 1;
             }
             start.wait();
-            if burst_after_us > 0 {
+            if let Some(d) = start_delay.get(r - 1) {
+                std::thread::sleep(Duration::from_micros(*d as u64));
+            } else if burst_after_us > 0 {
                 // let the slow handler start first, then send without pauses
                 std::thread::sleep(Duration::from_micros(if r == 1 { 0 } else { burst_after_us as u64 }));
             }
